@@ -131,6 +131,9 @@ def x_ral_parsevaa():
     w, b, fr, to = sl["body"]
     if b != "data" or to != "size!(data)":
         raise Broken("body slice is not data[.., size!(data))")
+    extra = set(re.findall(r'[A-Za-z_]\w*', fr)) - {"signatureSize"}
+    if extra:
+        raise Broken("governance.ral parseAndVerifyVAA: body slice starts at `%s`, which depends on %s and not only on the signature count" % (fr, sorted(extra)))
     body_from = nat_expr(fr, "signatureSize")
     if not re.search(r'let hash = keccak256!\(keccak256!\(body\)\)', fn):
         raise Broken("hash is not keccak256!(keccak256!(body))")
